@@ -1,6 +1,7 @@
 import functools
 import re
 
+from xsdata.exceptions import SerializerError
 from xsdata.models.enums import Namespace
 from xsdata.utils import text
 
@@ -48,11 +49,17 @@ def is_default(uri: str, ns_map: dict) -> bool:
 
 
 def clean_prefixes(ns_map: dict) -> dict:
-    """Remove default namespace if it's also assigned to a prefix."""
+    """Remove default namespace if it's also assigned to a prefix.
+
+    Raises:
+        SerializerError: If a prefix is not a valid name or a reserved
+            prefix or namespace is bound to something else.
+    """
     result = {}
     for prefix, ns in ns_map.items():
         if ns:
             prefix = prefix or None
+            validate_prefix(prefix, ns)
             if prefix not in result:
                 result[prefix] = ns
 
@@ -61,6 +68,20 @@ def clean_prefixes(ns_map: dict) -> dict:
         result.pop(None)
 
     return result
+
+
+def validate_prefix(prefix: str | None, uri: str) -> None:
+    """Verify the prefix can be declared for the uri in a xml document."""
+    reserved = Namespace.XML.prefix, "xmlns"
+    if prefix is None:
+        valid = uri != Namespace.XML.uri
+    elif prefix in reserved or uri == Namespace.XML.uri:
+        valid = prefix == Namespace.XML.prefix and uri == Namespace.XML.uri
+    else:
+        valid = is_ncname(prefix)
+
+    if not valid:
+        raise SerializerError(f"Invalid namespace prefix `{prefix}` for `{uri}`")
 
 
 def clean_uri(namespace: str) -> str:
